@@ -623,8 +623,22 @@ impl<'a> Gen<'a> {
                         _ => g.lit(Ty::Float),
                     }
                 };
-                let l = nanish(self);
-                let r = if self.rng.percent(30) { l.clone() } else { nanish(self) };
+                // ... or neighbouring integers beyond 2^53 (equal as f64, distinct as i64)
+                let big = [
+                    i64::MAX,
+                    i64::MAX - 1,
+                    9_007_199_254_740_992,
+                    9_007_199_254_740_993,
+                ];
+                let (l, r) = if self.rng.percent(30) {
+                    let i = self.rng.usize_below(big.len());
+                    let j = i ^ 1;
+                    (Expr::Lit(Value::Int(big[i])), Expr::Lit(Value::Int(big[j])))
+                } else {
+                    let l = nanish(self);
+                    let r = if self.rng.percent(30) { l.clone() } else { nanish(self) };
+                    (l, r)
+                };
                 let op = *self
                     .rng
                     .pick(&[Bin::Lt, Bin::Gt, Bin::Leq, Bin::Geq, Bin::Eq, Bin::Neq]);
